@@ -306,6 +306,70 @@ pub fn run(tier: Tier) -> i32 {
             });
         }
     }
+    // spellings: the same filter / the same destination written in another way the tool accepts gives the same
+    // result; a spelling the tool rejects leaves nothing behind. (Staves 2, 12 and 35 so that zero-padded and
+    // two-digit numbers differ.)
+    let mut spellings = 0u64;
+    {
+        let staves = [(3u8, 2u8), (3, 12), (5, 35)];
+        let pk: Vec<Packet> = (0..18).map(|i| gen::recognisable_framed((i % 3) as u8, Rdh::its_fee_id(staves[i % 3].0, staves[i % 3].1, 0), 16 + 16 * (i % 4), 91_000 + i as u64)).collect();
+        let bytes = stream::to_bytes(&pk);
+        let mut jobs: Vec<(Filter, Vec<String>, String, &str)> = Vec::new(); // (model filter, filter arguments, destination, kind)
+        for (li, (layer, stave)) in staves.iter().enumerate() {
+            let fee = Rdh::its_fee_id(*layer, *stave, 0);
+            let f = Filter::LayerStave(fee);
+            for sp in [format!("L{layer}_{stave}"), format!("l{layer}_{stave}"), format!("L{layer}_{stave:02}"), format!("L{layer}_{stave:03}"), format!("l{layer}_{stave:03}"), format!("L{layer}_{stave:04}")] {
+                jobs.push((f, vec!["--filter-its-stave".into(), sp.clone()], "out.raw".into(), "filter"));
+                jobs.push((f, vec![format!("--filter-its-stave={sp}")], "out.raw".into(), "filter"));
+            }
+            let l = li as u8;
+            for sp in [format!("{l}"), format!("{l:02}"), format!("{l:03}"), format!("+{l}")] {
+                jobs.push((Filter::Link(l), vec!["--filter-link".into(), sp.clone()], "out.raw".into(), "filter"));
+                jobs.push((Filter::Link(l), vec![format!("--filter-link={sp}")], "out.raw".into(), "filter"));
+                jobs.push((Filter::Link(l), vec!["-f".into(), sp.clone()], "out.raw".into(), "filter"));
+            }
+            for sp in [format!("{fee}"), format!("{fee:07}"), format!("+{fee}")] {
+                jobs.push((Filter::Fee(fee), vec!["--filter-fee".into(), sp.clone()], "out.raw".into(), "filter"));
+                jobs.push((Filter::Fee(fee), vec![format!("--filter-fee={sp}")], "out.raw".into(), "filter"));
+            }
+            for dest in ["./out.raw", "-", "sub/out.raw", "sub/../out2.raw", "a b.raw", "\u{fc}n\u{ef}.raw", "out", ".hidden.raw", "stdout.raw", "STDOUT"] {
+                jobs.push((Filter::Link(l), vec!["--filter-link".into(), format!("{l}")], dest.to_string(), "destination"));
+            }
+        }
+        let res = par_map(&jobs, |_, (f, fargs, dest, kind)| -> Option<(String, String)> {
+            let scratch = Scratch::new("c08s");
+            let _ = std::fs::create_dir_all(scratch.join("sub"));
+            let mut a = vec![scratch.file("in.raw", &bytes).display().to_string()];
+            a.extend(fargs.iter().cloned());
+            a.extend(["-o".to_string(), dest.clone()]);
+            let r = Run::new(&a).cwd(&scratch.path).run();
+            if r.crashed() || r.stderr_str().contains("panicked at") {
+                return Some((format!("{kind}-spelling:crash"), format!("signal {:?} / panic: {}", r.signal, r.stderr_str().lines().find(|l| l.contains("panicked")).unwrap_or(""))));
+            }
+            let (want, _, _) = expected_output(&bytes, *f);
+            let outp = scratch.join(dest);
+            let got = std::fs::read(&outp).ok();
+            let data_on_stdout = want.len() >= 64 && r.stdout.windows(64).any(|w| w == &want[..64]);
+            if r.status == Some(0) {
+                if got.as_deref() != Some(&want[..]) {
+                    return Some((format!("{kind}-spelling:accepted-but-other-result"), format!("accepted (exit 0), the file {dest:?} holds {:?} bytes, the selected packets make {} bytes", got.map(|g| g.len()), want.len())));
+                }
+                if data_on_stdout {
+                    return Some((format!("{kind}-spelling:data-also-on-stdout"), format!("the packets went to stdout although the destination is the file {dest:?}")));
+                }
+            } else if got.map_or(false, |g| !g.is_empty()) || data_on_stdout {
+                return Some((format!("{kind}-spelling:rejected-but-output-written"), format!("exit {:?}, yet data was written", r.status)));
+            }
+            None
+        });
+        for ((_, fargs, dest, _), r) in jobs.iter().zip(res.iter()) {
+            spellings += 1;
+            if let Some((sig, d)) = r {
+                rep.violation(Violation { signature: format!("write:{sig}"), description: format!("{d} [{} -o {dest}]", fargs.join(" ")), replay: json!({"input_hex": hex(&bytes), "args": fargs, "dest": dest}) });
+            }
+        }
+    }
+    rep.cov("spelling_cases", json!(spellings));
     // partition: for every pattern stream, the link-filter outputs over all link values add up to the input
     let mut partitions = 0u64;
     let pats = gen::sequences(&[0, 1, 2], if tier.is_thorough() { 5 } else { 4 });
